@@ -496,35 +496,27 @@ impl<'tcx> TyGenContext<'_, 'tcx> {
                     return_type => unreachable!("AST/HIR variant {:?} unknown.", return_type),
                 };
 
-                let layout = match ok {
-                    SuccessType::Unit => crate::js::layout::unit_size_alignment(),
+                // Rust writes `{ union { ok, err }, is_ok }` into the buffer: the union is as large as its largest member,
+                // rounded up to the strictest alignment among its members; a unit or write-out arm takes no room; the flag
+                // follows immediately.
+                let ok_layout = match ok {
                     SuccessType::OutType(ref o) => {
-                        crate::js::layout::type_size_alignment(o, self.tcx)
+                        Some(crate::js::layout::type_size_alignment(o, self.tcx))
                     }
-                    SuccessType::Write => match return_type {
-                        ReturnType::Fallible(_, ref err) if err.is_some() => {
-                            crate::js::layout::type_size_alignment(&err.clone().unwrap(), self.tcx)
-                        }
-                        ReturnType::Fallible(_, None) | ReturnType::Nullable(_) => {
-                            crate::js::layout::unit_size_alignment()
-                        }
-                        _ => unreachable!("AST/HIR variant {:?} unknown.", return_type),
-                    },
+                    SuccessType::Unit | SuccessType::Write => None,
                     _ => unreachable!("AST/HIR variant {:?} unknown.", return_type),
                 };
-                // Add size for checking whether or not we're a pass/fail result. And we make sure to see if our error type is bigger, so if we need to add extra width based on that:
-                let size = std::cmp::max(
-                    layout.size(),
-                    match return_type {
-                        // We already account for an error in the Write match up above:
-                        ReturnType::Fallible(_, e) if e.is_some() => {
-                            crate::js::layout::type_size_alignment(&e.clone().unwrap(), self.tcx)
-                                .size()
-                        }
-                        _ => 0,
-                    },
-                ) + 1;
-                let align = layout.align();
+                let err_layout = match return_type {
+                    ReturnType::Fallible(_, Some(e)) => {
+                        Some(crate::js::layout::type_size_alignment(e, self.tcx))
+                    }
+                    _ => None,
+                };
+                let arms = || ok_layout.iter().chain(err_layout.iter());
+                let align = arms().map(|l| l.align()).max().unwrap_or(1);
+                let payload_size = arms().map(|l| l.size()).max().unwrap_or(0);
+                // Add size for checking whether or not we're a pass/fail result.
+                let size = payload_size.next_multiple_of(align) + 1;
 
                 if requires_buf {
                     method_info.alloc_expressions.push(
